@@ -51,6 +51,9 @@ FIXED = [
     ("DD", ["C07", "C13", "C02"], "98f7b78", "deleting a parametrised space left its ItemSpaces alive (old handles answered and computed); renaming a space named as `base` by another space's formula kept the instances built from it"),
     ("C10-F5b", ["C10"], "119103b", "deleting a space did not re-derive references of the child spaces of the re-derived sub spaces (`del model.Mid` left `B.K.t` bound through the vanished inheritance)"),
     ("C04-RELREFS", ["C04", "C11"], "18ae908", "_check_subs_relrefs stopped at the first sub space defining the name: an impossible relative reference was accepted depending on sub-space order and the written model could not be read back"),
+    ("GG", ["C20", "C03"], "cd22548", "renaming a cells in a base to a name a sub space uses for its own cells was accepted and the sub space lost its definition"),
+    ("HH", ["C07"], "05b2bad", "setting/replacing/deleting the formula of a child space of a parametrised space kept the live ItemSpaces with the old formula"),
+    ("HALFBUILT2", ["C05", "C11"], "2a3dd9b", "an ItemSpace whose construction failed inside the base constructor stayed registered in its base's dynamic-space list"),
     ("M", ["C15"], "b10cccc", "export: names in a comprehension following a nested class/def scope were not rewritten to self.<name> (NameError in the package)"),
     ("N", ["C17"], "c0724cd", "nodes rolled back by a failure a formula handled leaked into the next traceback"),
     ("O", ["C04"], "14fa167", "`_is_cached = False` of a lambda-defined cells was written but not read back"),
